@@ -467,16 +467,20 @@ class ComponentLevel3( ComponentLevel2 ):
 
             else:
               # Check if an ancestor is a propagatable writer
+              via_ancestor = False
               obj = v.get_parent_object()
               while obj.is_signal():
                 if obj in writer_prop and writer_prop[ obj ]:
                   assert not has_writer
                   has_writer, writer = True, v
+                  via_ancestor = True
                   break
                 obj = obj.get_parent_object()
 
-              # Check sibling slices
-              for obj in v.get_sibling_slices():
+              # Check sibling slices, unless v is already the writer
+              # because an ancestor is written (s.x and s.x[a:b] written
+              # in the same block is one writer, not two)
+              for obj in ( () if via_ancestor else v.get_sibling_slices() ):
                 if obj.slice_overlap( v ):
                   if obj in writer_prop and writer_prop[ obj ]:
                     assert not has_writer
